@@ -361,6 +361,11 @@ def run(ctx):
             ok = name == "path_param" and (what in ("Option::expect", "Option::unwrap", "Index::index") or what.startswith("core::panicking::panic"))
             ctx.check(ok, "R19.6", rb.loc(ln), f"{name}|panic|{what}", f"{name}: possible panic site `{what}`",
                       instance=f"{name}: {what} allow-listed (documented caller contract: the router must install the PathParams extension with every template variable)", nontrivial=False)
+    # ... and of the auth parsing path (no panic is documented there: every malformed credential is PERMISSION_DENIED)
+    for ab in [x for x in c.bodies if x.id.startswith(SRV) and x.name in ("parse_auth_inner", "parse_header_auth", "parse_cookie_auth") and x.kind == "fn"]:
+        for x in [ab] + c.closures_of(ab):
+            for ln, what, _x in c06.panic_sites(x):
+                ctx.violation("R19.6", x.loc(ln), f"{ab.name}|panic|{what}", f"{ab.name}: possible panic site `{what}`: a malformed credential must be answered with PERMISSION_DENIED, never with a panic")
     # R19.3 template provenance (E3)
     tm = F.tmpl()
     if tm is None:
